@@ -73,6 +73,10 @@ type FileWrite struct {
 	Name    string `json:"name"`
 	Content string `json:"content"`
 	Create  bool   `json:"create,omitempty"` // create/truncate instead of pwrite
+	// Repeat/IntervalUs (bursts only): write the content Repeat more times, IntervalUs apart, while
+	// the burst is in flight - a refresh storm
+	Repeat     int `json:"repeat,omitempty"`
+	IntervalUs int `json:"interval_us,omitempty"`
 }
 
 type PollSpec struct {
@@ -96,6 +100,7 @@ type ChainJob struct {
 	Synth   []SynthPlugin     `json:"synth,omitempty"`
 	Via     string            `json:"via,omitempty"` // "" = plugins.LoadPlugins on a config value
 	YAML    string            `json:"yaml,omitempty"`  // if set: the configuration is this file, loaded with config.Load
+	LoadTwice bool            `json:"load_twice,omitempty"` // call LoadPlugins a second time on the same configuration object and use that result (synthetic plugins only: built-in ones keep globals)
 	Sniff   []string          `json:"sniff,omitempty"` // interfaces to sniff for link-level replies
 	FrameWaitUs int           `json:"frame_wait_us,omitempty"` // how long to wait for a frame when nothing was sent by UDP
 	LogHook bool              `json:"-"`
@@ -250,6 +255,10 @@ func chainChild() {
 		conf = c
 	}
 	h4, h6, err := plugins.LoadPlugins(conf)
+	if err == nil && job.LoadTwice {
+		rec.reset()
+		h4, h6, err = plugins.LoadPlugins(conf)
+	}
 	if err != nil {
 		emit(map[string]any{"setup_err": err.Error()})
 		out.Flush()
@@ -354,9 +363,14 @@ func chainChild() {
 					go func(w *FileWrite, delay int) {
 						defer wg.Done()
 						time.Sleep(time.Duration(delay) * time.Microsecond)
-						if f, err := os.OpenFile(filepath.Join(dir, w.Name), os.O_WRONLY, 0); err == nil {
-							f.WriteAt([]byte(w.Content), 0)
-							f.Close()
+						for n := 0; n <= w.Repeat; n++ {
+							if f, err := os.OpenFile(filepath.Join(dir, w.Name), os.O_WRONLY, 0); err == nil {
+								f.WriteAt([]byte(w.Content), 0)
+								f.Close()
+							}
+							if w.Repeat > 0 {
+								time.Sleep(time.Duration(w.IntervalUs) * time.Microsecond)
+							}
 						}
 					}(q.Write, q.SleepMs)
 				}
